@@ -105,6 +105,7 @@ type G struct {
 	spinCount   int    // visits on probation since the last active operation
 	lowPrio     bool   // on probation: runs only when nothing else can
 	starved     bool   // Options.Starve names this goroutine: it runs only when no other goroutine can ...
+	sleeping    bool   // put to sleep by a deviation: runs again only when no other goroutine can (or after StarveSteps)
 	queuedAt    int    // step at which it was last put into the run queue (RunNext ageing)
 	lastRun     int    // ... unless it has not run for Options.StarveSteps steps (step of its last operation)
 	lastSelKey  uint32 // visit key and clause of the last select that took a receive from a closed channel
@@ -234,6 +235,9 @@ func (e *Exec) touchG(g *G) {
 		if g.waitIdle {
 			c = mix(c, 0x77)
 		}
+		if g.sleeping {
+			c = mix(c, 0x79)
+		}
 	}
 	e.sum += c - g.contrib
 	g.contrib = c
@@ -353,7 +357,7 @@ func (e *Exec) pick(n int, kind int) int {
 // polls until another goroutine has moved (the gateways' "reschedule" of an early probe report)
 // would never terminate under unbounded starvation.
 func (e *Exec) starving(g *G) bool {
-	return g.starved && e.steps-g.lastRun < e.opts.StarveSteps
+	return (g.starved || g.sleeping) && e.steps-g.lastRun < e.opts.StarveSteps
 }
 
 // candidates returns the runnable goroutines in canonical order: the current one first (if it
@@ -369,16 +373,17 @@ func (e *Exec) candidates(cur *G) []*G {
 			cands = push(cands, g)
 		}
 	}
+	// the starved goroutine (Options.Starve) comes last: by default it runs only when every other
+	// goroutine is blocked, but a deviation may pick it for one operation
+	if cur != nil && e.starving(cur) && !cur.waitIdle && !cur.lowPrio {
+		cands = push(cands, cur)
+	}
+	for _, g := range e.runq {
+		if e.starving(g) && !g.waitIdle && !g.lowPrio {
+			cands = push(cands, g)
+		}
+	}
 	if len(cands) == 0 {
-		// the starved goroutine (Options.Starve): only when every other goroutine is blocked
-		if cur != nil && cur.starved && !cur.waitIdle && !cur.lowPrio {
-			return push(cands, cur)
-		}
-		for _, g := range e.runq {
-			if g.starved && !g.waitIdle && !g.lowPrio {
-				return push(cands, g)
-			}
-		}
 		// goroutines on spin probation: one at a time, no choice among them
 		if cur != nil && cur.lowPrio {
 			return push(cands, cur)
@@ -424,6 +429,11 @@ func yield() *G {
 	g := e.cur
 	e.steps++
 	g.lastRun = e.steps
+	if g.sleeping {
+		// it is running again: the sleep a deviation imposed on it is over
+		g.sleeping = false
+		e.touchG(g)
+	}
 	if e.opts.Trace {
 		e.traceOp(g)
 	}
@@ -463,7 +473,20 @@ func yield() *G {
 	idx := 0
 	if len(cands) > 1 && !(sameState && e.opts.Unbounded && !g.waitIdle) {
 		if e.spent < e.opts.Bound {
-			idx = e.pick(len(cands), KSched)
+			n := len(cands)
+			// one more alternative when the current goroutine could go on: it is put to sleep
+			// until no other goroutine can run (a long delay at this very point, which no small
+			// number of single-step postponements amounts to)
+			sleepAlt := !e.opts.Unbounded && !e.opts.NoSleep && cands[0] == g && !g.waitIdle
+			if sleepAlt {
+				n++
+			}
+			idx = e.pick(n, KSched)
+			if sleepAlt && idx == n-1 {
+				g.sleeping = true
+				e.touchG(g)
+				idx = 1
+			}
 		}
 	}
 	next := cands[idx]
@@ -808,6 +831,8 @@ type Options struct {
 	// (woken by a channel operation, an unlock, ... or just created) goes to the *front* of the
 	// run queue, as the Go scheduler's runnext slot does, instead of to the back (FIFO).
 	RunNext bool
+	// NoSleep switches the "sleep until the others are idle" deviation off.
+	NoSleep bool
 	Starve  int
 	// StarveSteps bounds one starvation window (default 400 scheduling steps): after that many
 	// steps without running, the starved goroutine is scheduled like any other until its next
